@@ -106,7 +106,127 @@ module Wide #(
     }
     assign q = t[K];
 }
+
+// ---- DUTs with a derived clock declared in a SUBMODULE (nested below the reuse boundary) ----
+module DivLeaf #(
+    param W: u32 = 8,
+) (
+    clk: input  clock   ,
+    rst: input  reset   ,
+    d  : input  logic<W>,
+    q  : output logic<W>,
+) {
+    var toggle: logic;
+    always_ff (clk, rst) {
+        if_reset {
+            toggle = 0;
+        } else {
+            toggle = ~toggle;
+        }
+    }
+    let div_clk: '_ clock = clk & toggle;
+    always_ff (div_clk, rst) {
+        if_reset {
+            q = 0;
+        } else {
+            q += d + 1;
+        }
+    }
+}
+
+module GateLeaf #(
+    param W: u32 = 8,
+) (
+    clk: input  clock   ,
+    rst: input  reset   ,
+    en : input  logic   ,
+    d  : input  logic<W>,
+    q  : output logic<W>,
+) {
+    let g_clk: '_ clock = clk & en;
+    always_ff (g_clk, rst) {
+        if_reset {
+            q = 0;
+        } else {
+            q += d + 3;
+        }
+    }
+}
+
+// >= 256 bytes of state (64-entry register file) + a child with a divided clock
+module BigDiv #(
+    param W: u32 = 8,
+) (
+    clk: input  clock   ,
+    rst: input  reset   ,
+    d  : input  logic<W>,
+    q  : output logic<W>,
+) {
+    var pad: logic<W> [64];
+    var c  : logic<W>;
+    always_ff (clk, rst) {
+        if_reset {
+            for i in 0..64 {
+                pad[i] = 0;
+            }
+        } else {
+            for i in 0..64 {
+                pad[i] += 1;
+            }
+        }
+    }
+    inst u_leaf: DivLeaf #( W: W ) ( clk, rst, d, q: c );
+    assign q = c ^ pad[0] ^ pad[63];
+}
+
+// >= 256 bytes of state + a child whose clock is gated by a register of this module
+module BigGate #(
+    param W: u32 = 8,
+) (
+    clk: input  clock   ,
+    rst: input  reset   ,
+    d  : input  logic<W>,
+    q  : output logic<W>,
+) {
+    var pad: logic<W> [64];
+    var c  : logic<W>;
+    var en : logic;
+    always_ff (clk, rst) {
+        if_reset {
+            en = 0;
+            for i in 0..64 {
+                pad[i] = 0;
+            }
+        } else {
+            en = ~en;
+            for i in 0..64 {
+                pad[i] += 2;
+            }
+        }
+    }
+    inst u_leaf: GateLeaf #( W: W ) ( clk, rst, en, d, q: c );
+    assign q = c + pad[1];
+}
+
+// two levels: test -> BigWrap -> BigDiv -> DivLeaf, plus a plain sibling
+module BigWrap #(
+    param W: u32 = 8,
+) (
+    clk: input  clock   ,
+    rst: input  reset   ,
+    d  : input  logic<W>,
+    q  : output logic<W>,
+) {
+    var a: logic<W>;
+    var b: logic<W>;
+    inst u_acc: Acc #( W: W ) ( clk, rst, d, q: a );
+    inst u_big: BigDiv #( W: W ) ( clk, rst, d: a, q: b );
+    assign q = a ^ b;
+}
 """
+
+NESTED_CLOCK_DUTS = ["BigDiv", "BigGate", "BigWrap"]
+LAYOUTS = ["plain", "extra_state_first", "other_instance_first", "two_instances"]
 
 BUILTIN = [("u8", 8, False), ("u16", 16, False), ("u32", 32, False), ("u64", 64, False),
            ("i8", 8, True), ("i16", 16, True), ("i32", 32, True), ("i64", 64, True), ("bbool", 1, False)]
@@ -202,12 +322,22 @@ def gen_bounds(rng, ty):
     return a, b, ("swapped" if a > b else "plain")
 
 
-def gen_test(rng, name, handle_pool):
-    """-> (text, draws) where draws: tag -> metadata used by the bounds checker."""
+def gen_test(rng, name, handle_pool, force=None):
+    """-> (text, draws, info) where draws: tag -> metadata used by the bounds checker.
+    force = (dut, W, layout): a test of the suite's focus DUT (nested derived clock) in a given layout."""
     W = rng.pick([4, 8, 8, 13, 16, 32, 40, 64])
-    dut = rng.pick(["Acc", "Acc", "Pipe", "Top2", "Top2", "Mix", "Wide", "none"])
+    dut = rng.pick(["Acc", "Acc", "Pipe", "Top2", "Top2", "Mix", "Wide", "none", "BigDiv", "BigGate", "BigWrap"])
     iters = rng.range(2, 9)
     nh = rng.range(0, 4) if rng.chance(9, 10) else 0
+    layout = rng.pick(LAYOUTS + ["plain", "plain"])
+    if dut in NESTED_CLOCK_DUTS:
+        W = rng.pick([8, 13, 16, 32])
+    if force:
+        dut, W, layout = force
+        iters = rng.range(7, 12)
+        nh = rng.range(0, 1)
+    if dut in ("none", "Mix"):
+        layout = "plain"
     lines = [f"#[test({name})]", f"module {name} {{"]
     body = []
     decl = ["    inst clk: $tb::clock_gen;", "    inst rst: $tb::reset_gen ( clk );"]
@@ -223,6 +353,38 @@ def gen_test(rng, name, handle_pool):
         decl.append("    var xd: dty;")
         decl.append(f"    var d: logic<{W}>;")
         decl.append(f"    var q: logic<{W}>;")
+        # testbench layouts that put the DUT at different ff/comb offsets
+        if layout == "extra_state_first":
+            n = rng.range(2, 6)
+            decl.append(f"    var extra: logic<64> [{n}];")
+            decl.append("    var mix  : logic<64>;")
+            decl.append("    always_ff (clk, rst) {")
+            decl.append("        if_reset {")
+            decl.append(f"            for i in 0..{n} {{")
+            decl.append("                extra[i] = 0;")
+            decl.append("            }")
+            decl.append("        } else {")
+            decl.append(f"            for i in 0..{n} {{")
+            decl.append("                extra[i] += 3;")
+            decl.append("            }")
+            decl.append("        }")
+            decl.append("    }")
+            decl.append(f"    assign mix = extra[0] ^ extra[{n - 1}];")
+        elif layout == "other_instance_first":
+            decl.append("    var d9: logic<8>;")
+            decl.append("    var q9: logic<8>;")
+            decl.append("    assign d9 = 5;")
+            decl.append("    inst pre: Acc #( W: 8 ) ( clk, rst, d: d9, q: q9 );")
+        elif layout == "two_instances":
+            decl.append(f"    var d0: logic<{W}>;")
+            decl.append(f"    var q0: logic<{W}>;")
+            decl.append("    assign d0 = 1;")
+            if dut == "Pipe":
+                decl.append(f"    inst dut0: Pipe #( W: {W}, N: 2 ) ( clk, rst, d: d0, q: q0 );")
+            elif dut == "Wide":
+                decl.append(f"    inst dut0: Wide #( W: {W}, K: 2 ) ( clk, rst, d: d0, q: q0 );")
+            else:
+                decl.append(f"    inst dut0: {dut} #( W: {W} ) ( clk, rst, d: d0, q: q0 );")
         if dut == "Mix":
             decl.append(f"    var b: logic<{W}>;")
             decl.append(f"    inst dut: Mix #( W: {W} ) ( a: d, b: b, y: q );")
@@ -295,7 +457,7 @@ def gen_test(rng, name, handle_pool):
             if rng.chance(1, 4):
                 body_loop.append(f"            $display(\"V {tag} %d\", x{k});")
             draws[tag] = meta
-            if rng.chance(1, 8) and not ty["signed"] and ty["width"] >= 4:
+            if not force and rng.chance(1, 8) and not ty["signed"] and ty["width"] >= 4:
                 full = (1 << ty["width"]) - 1
                 thr = rng.range(full - full // 8, full)
                 body_loop.append(f"            $assert(x{k} <: {lit(thr, ty['width'])}, \"{tag} value %d not below {thr} (i=%d)\", x{k}, i);")
@@ -306,7 +468,13 @@ def gen_test(rng, name, handle_pool):
     body_loop.append("            clk.next();" if rng.chance(4, 5) else f"            clk.next({rng.range(2, 5)});")
     if dut != "none":
         body_loop.append(f"            $display(\"O {name} q=%x i=%d\", q, i);")
-    r = rng.below(14)
+        if layout == "two_instances":
+            body_loop.append(f"            $display(\"O0 {name} q0=%x\", q0);")
+        elif layout == "other_instance_first":
+            body_loop.append(f"            $display(\"O9 {name} q9=%x\", q9);")
+        elif layout == "extra_state_first":
+            body_loop.append(f"            $display(\"OX {name} mix=%x\", mix);")
+    r = rng.below(14) if not force else 99
     if r == 0:
         body_loop.append(f"            $assert(i != {rng.below(iters)}, \"{name} gives up at %d\", i);")
     elif r == 1:
@@ -321,7 +489,7 @@ def gen_test(rng, name, handle_pool):
     body.append(f"        $display(\"E {name} done\");")
     body.append("        $finish();")
     text = "\n".join(lines + decl + ["    initial {"] + body + ["    }", "}"]) + "\n"
-    return text, draws
+    return text, draws, {"dut": dut, "W": W, "layout": layout}
 
 
 def gen_suite(rng, index, min_tests=8, max_tests=40, prefix="s"):
@@ -331,17 +499,41 @@ def gen_suite(rng, index, min_tests=8, max_tests=40, prefix="s"):
     draws = {}
     tests = []
     texts = [[] for _ in range(nfiles)]
+    # Every suite has a focus DUT with a derived clock in a submodule (>= 256 bytes of state) that at
+    # least three tests instantiate with the same parameters but in different testbench layouts, so
+    # that CLI DUT reuse relocates one conversion to different ff/comb offsets.
+    focus = (rng.pick(NESTED_CLOCK_DUTS), rng.pick([8, 13, 16, 32]))
+    nfocus = rng.range(3, 5)
+    forced = {}
+    slots = list(range(ntests))
+    rng.shuffle(slots)
+    for j, t in enumerate(slots[:nfocus]):
+        forced[t] = (focus[0], focus[1], LAYOUTS[j % len(LAYOUTS)])
+    dut_use = {}
     for t in range(ntests):
         name = f"t{index}_{t:02d}"
-        text, d = gen_test(rng, name, HANDLE_NAMES)
+        text, d, info = gen_test(rng, name, HANDLE_NAMES, force=forced.get(t))
         texts[rng.below(nfiles)].append(text)
         draws.update(d)
         tests.append(name)
+        if info["dut"] != "none":
+            dut_use.setdefault(f"{info['dut']}#{info['W']}", []).append((name, info["layout"]))
     for i, parts in enumerate(texts):
         if parts:
             files[f"src/tests_{i}.veryl"] = "\n".join(parts)
     cfg = {"name": f"{prefix}{index}", "exclude_std": True}
-    return {"index": index, "cfg": cfg, "files": files, "tests": tests, "draws": draws}
+    fkey = f"{focus[0]}#{focus[1]}"
+    shapes = {
+        "focus_dut": fkey,
+        "focus_tests": [n for n, _ in dut_use.get(fkey, [])],
+        "focus_layouts": sorted({l for _, l in dut_use.get(fkey, [])}),
+        # every (DUT, params) used by >= 2 tests in >= 2 different layouts
+        "shared_duts_at_distinct_layouts": sorted(k for k, v in dut_use.items()
+                                                  if len(v) >= 2 and len({l for _, l in v}) >= 2),
+        "nested_clock_duts_shared": sorted(k for k, v in dut_use.items()
+                                           if len(v) >= 2 and k.split("#")[0] in NESTED_CLOCK_DUTS),
+    }
+    return {"index": index, "cfg": cfg, "files": files, "tests": tests, "draws": draws, "shapes": shapes}
 
 
 def suite_toml(cfg):
@@ -527,6 +719,7 @@ def standard_schedules(rng, suite, seed, nsched, backends):
 
 def suite_sample(suite):
     return {"suite": suite["cfg"]["name"], "tests": len(suite["tests"]), "files": sorted(suite["files"]),
+            "shapes": suite.get("shapes"),
             "random_draw_statements": len(suite["draws"]),
             "example_draws": dict(list(suite["draws"].items())[:4]),
             "example_test_text": suite["files"].get("src/tests_0.veryl", "")[:1800]}
@@ -587,6 +780,10 @@ def run_suite(run, suite, scratch, rng, nsched, backends, with_cc):
             n, bad = check_bounds(suite["draws"], parse_draws(r["results"]))
             run.count("random_draws_checked", n)
             run.count("tests_in_suites", len(suite["tests"]))
+            sh = suite.get("shapes") or {}
+            if len(sh.get("focus_tests", [])) >= 2:
+                run.count("suites_with_nested_derived_clock_dut")
+                run.count("tests_on_nested_derived_clock_dut", len(sh["focus_tests"]))
             sts = [v[0] for v in r["results"].values()]
             run.count("tests_failing_on_purpose_or_by_draw", sum(1 for x in sts if x == "fail"))
             run.count("tests_passing", sum(1 for x in sts if x == "pass"))
